@@ -14,21 +14,26 @@ namespace C14
 
 variable {F : Type} [LinearOrder F]
 
-/-- recursive description of "the intervals from the current one on, clipped at `t1`";
-`x` is the (already clipped) start of the current interval, `b` its stop. -/
+/-- recursive description of "the intervals from the current one on, clipped at the excluded
+upper bound `t1`"; `x` is the (already clipped) start of the current interval, `b` its stop. -/
 def specEnd (t1 : F) : F → F → List (F × F) → List (F × F)
-  | x, b, [] => if t1 < b then [(x, t1)] else [(x, b)]
+  | x, b, [] => if t1 ≤ b then [(x, t1)] else [(x, b)]
   | x, b, (a', b') :: rest' =>
-    if t1 < b then [(x, t1)]
-    else (x, b) :: (if a' ≤ t1 then specEnd t1 a' b' rest' else [])
+    if t1 ≤ b then [(x, t1)]
+    else (x, b) :: (if a' < t1 then specEnd t1 a' b' rest' else [])
 
-/-- flat form produced by the index arithmetic once the start index is resolved -/
+/-- flat form produced by the index arithmetic once the start index is resolved;
+the count uses `digitize(right=True)` (edges `< t1`) -/
 def gEnd (t1 : F) (x : F) (L : List F) : List (F × F) :=
-  unflat (x :: (L.take (digitize L t1) ++ (if digitize L t1 % 2 = 0 then [t1] else [])))
+  unflat (x :: (L.take (digitizeR L t1) ++ (if digitizeR L t1 % 2 = 0 then [t1] else [])))
 
 theorem digitize_cons' (c : F) (l : List F) (w : F) :
     digitize (c :: l) w = digitize l w + (if c ≤ w then 1 else 0) := by
   simp only [digitize, List.countP_cons, decide_eq_true_eq]
+
+theorem digitizeR_cons (c : F) (l : List F) (w : F) :
+    digitizeR (c :: l) w = digitizeR l w + (if c < w then 1 else 0) := by
+  simp only [digitizeR, List.countP_cons, decide_eq_true_eq]
 
 theorem digitize_zero_of_lt' (edges : List F) (t : F) (h : ∀ e ∈ edges, t < e) :
     digitize edges t = 0 := by
@@ -37,15 +42,22 @@ theorem digitize_zero_of_lt' (edges : List F) (t : F) (h : ∀ e ∈ edges, t < 
   intro e he
   simp [not_le.mpr (h e he)]
 
+theorem digitizeR_zero_of_le (edges : List F) (t : F) (h : ∀ e ∈ edges, t ≤ e) :
+    digitizeR edges t = 0 := by
+  unfold digitizeR
+  rw [List.countP_eq_zero]
+  intro e he
+  simp [not_lt.mpr (h e he)]
+
 theorem gEnd_eq_specEnd (t1 : F) (rest : List (F × F)) :
     ∀ (x b : F), (b :: flat rest).Pairwise (· ≤ ·) → gEnd t1 x (b :: flat rest) = specEnd t1 x b rest := by
   induction rest with
   | nil =>
     intro x b _
     unfold gEnd specEnd
-    by_cases h : t1 < b
-    · simp [flat, digitize, not_le.mpr h, h, unflat]
-    · simp [flat, digitize, not_lt.mp h, h, unflat]
+    by_cases h : t1 ≤ b
+    · simp [flat, digitizeR, not_lt.mpr h, h, unflat]
+    · simp [flat, digitizeR, not_le.mp h, h, unflat]
   | cons p rest' ih =>
     intro x b hs
     obtain ⟨a', b'⟩ := p
@@ -54,48 +66,48 @@ theorem gEnd_eq_specEnd (t1 : F) (rest : List (F × F)) :
     simp only [List.pairwise_cons] at hs
     obtain ⟨hb, ha', hb', hrest⟩ := hs
     unfold specEnd
-    by_cases h : t1 < b
-    · -- window ends inside the current interval: no edge is ≤ t1
-      have hz : digitize (b :: a' :: b' :: flat rest') t1 = 0 :=
-        digitize_zero_of_lt' _ _ (by
+    by_cases h : t1 ≤ b
+    · -- window ends inside (or at the stop of) the current interval: no edge is < t1
+      have hz : digitizeR (b :: a' :: b' :: flat rest') t1 = 0 :=
+        digitizeR_zero_of_le _ _ (by
           intro e he
           rcases List.mem_cons.mp he with rfl | he
           · exact h
-          · exact lt_of_lt_of_le h (hb e he))
+          · exact le_trans h (hb e he))
       unfold gEnd
       simp [hz, h, unflat]
-    · have hbt : b ≤ t1 := not_lt.mp h
+    · have hbt : b < t1 := not_le.mp h
       rw [if_neg h]
-      by_cases h2 : a' ≤ t1
+      by_cases h2 : a' < t1
       · rw [if_pos h2]
         have hs' : (b' :: flat rest').Pairwise (· ≤ ·) := List.pairwise_cons.mpr ⟨hb', hrest⟩
         rw [← ih a' b' hs']
         unfold gEnd
-        have hc : digitize (b :: a' :: b' :: flat rest') t1 = digitize (b' :: flat rest') t1 + 2 := by
-          rw [digitize_cons', digitize_cons']; simp [hbt, h2]
+        have hc : digitizeR (b :: a' :: b' :: flat rest') t1 = digitizeR (b' :: flat rest') t1 + 2 := by
+          rw [digitizeR_cons, digitizeR_cons]; simp [hbt, h2]
         rw [hc]
-        generalize digitize (b' :: flat rest') t1 = c
+        generalize digitizeR (b' :: flat rest') t1 = c
         have e1 : (c + 2) % 2 = c % 2 := by omega
         simp only [e1, List.take_succ_cons, List.cons_append, unflat]
       · rw [if_neg h2]
-        have hz : digitize (a' :: b' :: flat rest') t1 = 0 :=
-          digitize_zero_of_lt' _ _ (by
+        have hz : digitizeR (a' :: b' :: flat rest') t1 = 0 :=
+          digitizeR_zero_of_le _ _ (by
             intro e he
             rcases List.mem_cons.mp he with rfl | he
-            · exact not_le.mp h2
-            · exact lt_of_lt_of_le (not_le.mp h2) (ha' e he))
-        have hc : digitize (b :: a' :: b' :: flat rest') t1 = 1 := by
-          rw [digitize_cons', hz]; simp [hbt]
+            · exact not_lt.mp h2
+            · exact le_trans (not_lt.mp h2) (ha' e he))
+        have hc : digitizeR (b :: a' :: b' :: flat rest') t1 = 1 := by
+          rw [digitizeR_cons, hz]; simp [hbt]
         unfold gEnd
         simp [hc, unflat]
 
 theorem betweenSpec_cons (p : F × F) (rest : List (F × F)) (t0 t1 : F) :
     betweenSpec (p :: rest) t0 t1 =
-      if t0 < p.2 ∧ p.1 ≤ t1 then
+      if t0 < p.2 ∧ p.1 < t1 then
         ((if p.1 ≤ t0 then t0 else p.1), (if t1 < p.2 then t1 else p.2)) :: betweenSpec rest t0 t1
       else betweenSpec rest t0 t1 := by
   unfold betweenSpec
-  by_cases h : t0 < p.2 ∧ p.1 ≤ t1
+  by_cases h : t0 < p.2 ∧ p.1 < t1
   · rw [if_pos h, List.filter_cons_of_pos (by simp [h.1, h.2])]; simp
   · rw [if_neg h, List.filter_cons_of_neg (by
       simp only [Bool.and_eq_true, decide_eq_true_eq]; exact h)]
@@ -106,18 +118,27 @@ theorem mem_flat_fst {p : F × F} {l : List (F × F)} (h : p ∈ l) : p.1 ∈ fl
 theorem mem_flat_snd {p : F × F} {l : List (F × F)} (h : p ∈ l) : p.2 ∈ flat l := by
   unfold flat; simp only [List.mem_flatMap]; exact ⟨p, h, by simp⟩
 
-theorem betweenSpec_nil_of_gt (rest : List (F × F)) (t0 t1 : F) (h : ∀ p ∈ rest, t1 < p.1) :
+theorem betweenSpec_nil_of_ge (rest : List (F × F)) (t0 t1 : F) (h : ∀ p ∈ rest, t1 ≤ p.1) :
     betweenSpec rest t0 t1 = [] := by
   unfold betweenSpec
   rw [List.map_eq_nil_iff, List.filter_eq_nil_iff]
   intro p hp
-  simp [not_le.mpr (h p hp)]
+  simp [not_lt.mpr (h p hp)]
 
 theorem specEnd_eq (t0 t1 : F) (rest : List (F × F)) :
     ∀ (x b : F), (b :: flat rest).Pairwise (· ≤ ·) → t0 < b →
       specEnd t1 x b rest = (x, if t1 < b then t1 else b) :: betweenSpec rest t0 t1 := by
   induction rest with
-  | nil => intro x b _ _; unfold specEnd betweenSpec; split_ifs <;> simp
+  | nil =>
+    intro x b _ _
+    unfold specEnd betweenSpec
+    by_cases h : t1 ≤ b
+    · rw [if_pos h]
+      by_cases h' : t1 < b
+      · simp [h']
+      · have : t1 = b := le_antisymm h (not_lt.mp h')
+        simp [this]
+    · rw [if_neg h, if_neg (fun h' => h (le_of_lt h'))]; simp
   | cons p rest' ih =>
     intro x b hs h0
     obtain ⟨a', b'⟩ := p
@@ -128,25 +149,29 @@ theorem specEnd_eq (t0 t1 : F) (rest : List (F × F)) :
     have hba' : b ≤ a' := hb a' (by simp)
     have ha'b' : a' ≤ b' := ha' b' (by simp)
     unfold specEnd
-    by_cases h : t1 < b
-    · rw [if_pos h, if_pos h]
-      rw [betweenSpec_nil_of_gt]
+    by_cases h : t1 ≤ b
+    · rw [if_pos h]
+      have hv : (if t1 < b then t1 else b) = t1 := by
+        by_cases h' : t1 < b
+        · rw [if_pos h']
+        · rw [if_neg h']; exact (le_antisymm h (not_lt.mp h')).symm
+      rw [hv, betweenSpec_nil_of_ge]
       intro q hq
       rcases List.mem_cons.mp hq with rfl | hq
-      · exact lt_of_lt_of_le h hba'
-      · exact lt_of_lt_of_le h (le_trans hba' (ha' _ (List.mem_cons_of_mem _ (mem_flat_fst hq))))
-    · rw [if_neg h, if_neg h, betweenSpec_cons]
+      · exact le_trans h hba'
+      · exact le_trans h (le_trans hba' (ha' _ (List.mem_cons_of_mem _ (mem_flat_fst hq))))
+    · rw [if_neg h, if_neg (fun h' => h (le_of_lt h')), betweenSpec_cons]
       have h0' : t0 < b' := lt_of_lt_of_le h0 (le_trans hba' ha'b')
-      by_cases h2 : a' ≤ t1
+      by_cases h2 : a' < t1
       · rw [if_pos h2, if_pos ⟨h0', h2⟩]
         have hs' : (b' :: flat rest').Pairwise (· ≤ ·) := List.pairwise_cons.mpr ⟨hb', hrest⟩
         rw [ih a' b' hs' h0']
         have : ¬ a' ≤ t0 := not_le.mpr (lt_of_lt_of_le h0 hba')
         simp [this]
       · rw [if_neg h2, if_neg (fun hh => h2 hh.2)]
-        rw [betweenSpec_nil_of_gt]
+        rw [betweenSpec_nil_of_ge]
         intro q hq
-        exact lt_of_lt_of_le (not_le.mp h2) (ha' _ (List.mem_cons_of_mem _ (mem_flat_fst hq)))
+        exact le_trans (not_lt.mp h2) (ha' _ (List.mem_cons_of_mem _ (mem_flat_fst hq)))
 
 theorem adjS_add2 (s : Nat) : adjS (s + 2) = adjS s + 2 := by unfold adjS; split_ifs <;> omega
 theorem adjE_add2 (e : Nat) : adjE (e + 2) = adjE e + 2 := by unfold adjE; split_ifs <;> omega
@@ -224,14 +249,16 @@ theorem betweenCore_head (x0 : F) (L : List F) (s c : Nat) (t0 t1 : F) (hs : s =
       have : c = 1 := by omega
       subst this; simp
 
-/-- **refinement**: on sorted, non-overlapping intervals and a window `t0 ≤ t1` the index
-arithmetic of `get_uptime_intervals_between` never fails and returns exactly the
+/-- **refinement**: on sorted, non-overlapping intervals and a non-empty window `t0 < t1` the
+index arithmetic of `get_uptime_intervals_between` never fails and returns exactly the
 specification form. -/
-theorem betweenIdx_eq_spec (ivs : List (F × F)) (t0 t1 : F) (h01 : t0 ≤ t1)
+theorem betweenIdx_eq_spec (ivs : List (F × F)) (t0 t1 : F) (h01 : t0 < t1)
     (hs : (flat ivs).Pairwise (· ≤ ·)) :
     betweenIdx ivs t0 t1 = some (betweenSpec ivs t0 t1) := by
+  unfold betweenIdx
+  rw [if_neg (not_le.mpr h01)]
   induction ivs with
-  | nil => simp [betweenIdx, betweenCore, flat, digitize, adjS, adjE, betweenSpec]
+  | nil => simp [betweenCore, flat, digitize, digitizeR, adjS, adjE, betweenSpec]
   | cons p rest ih =>
     obtain ⟨a, b⟩ := p
     have hfl : flat ((a, b) :: rest) = a :: b :: flat rest := by simp [flat]
@@ -239,18 +266,17 @@ theorem betweenIdx_eq_spec (ivs : List (F × F)) (t0 t1 : F) (h01 : t0 ≤ t1)
     simp only [List.pairwise_cons] at hs
     obtain ⟨ha, hb, hrest⟩ := hs
     have hab : a ≤ b := ha b (by simp)
-    unfold betweenIdx
     rw [hfl, betweenSpec_cons]
     by_cases hb0 : b ≤ t0
     · -- the interval lies before the window
       have ha0 : a ≤ t0 := le_trans hab hb0
-      have hb1 : b ≤ t1 := le_trans hb0 h01
-      have ha1 : a ≤ t1 := le_trans ha0 h01
+      have hb1 : b < t1 := lt_of_le_of_lt hb0 h01
+      have ha1 : a < t1 := lt_of_le_of_lt ha0 h01
       have d0 : digitize (a :: b :: flat rest) t0 = digitize (flat rest) t0 + 2 := by
         rw [digitize_cons', digitize_cons']; simp [ha0, hb0]
-      have d1 : digitize (a :: b :: flat rest) t1 = digitize (flat rest) t1 + 2 := by
-        rw [digitize_cons', digitize_cons']; simp [ha1, hb1]
-      have hcond : ¬ (t0 < (a, b).2 ∧ (a, b).1 ≤ t1) := fun h => absurd h.1 (not_lt.mpr hb0)
+      have d1 : digitizeR (a :: b :: flat rest) t1 = digitizeR (flat rest) t1 + 2 := by
+        rw [digitizeR_cons, digitizeR_cons]; simp [ha1, hb1]
+      have hcond : ¬ (t0 < (a, b).2 ∧ (a, b).1 < t1) := fun h => absurd h.1 (not_lt.mpr hb0)
       rw [if_neg hcond, d0, d1, betweenCore_shift]
       exact ih hrest
     · have h0b : t0 < b := not_le.mp hb0
@@ -258,15 +284,15 @@ theorem betweenIdx_eq_spec (ivs : List (F × F)) (t0 t1 : F) (h01 : t0 ≤ t1)
         digitize_zero_of_lt' _ _ (fun e he => lt_of_lt_of_le h0b (hb e he))
       have d0 : digitize (a :: b :: flat rest) t0 = if a ≤ t0 then 1 else 0 := by
         rw [digitize_cons', digitize_cons', hz0]; simp [hb0]
-      by_cases ha1 : a ≤ t1
+      by_cases ha1 : a < t1
       · -- the head interval is the first one in the window
-        have d1 : digitize (a :: b :: flat rest) t1 = digitize (b :: flat rest) t1 + 1 := by
-          rw [digitize_cons' a]; simp [ha1]
-        have hc : digitize (b :: flat rest) t1 ≤ (b :: flat rest).length := by
-          unfold digitize; exact List.countP_le_length
+        have d1 : digitizeR (a :: b :: flat rest) t1 = digitizeR (b :: flat rest) t1 + 1 := by
+          rw [digitizeR_cons a]; simp [ha1]
+        have hc : digitizeR (b :: flat rest) t1 ≤ (b :: flat rest).length := by
+          unfold digitizeR; exact List.countP_le_length
         have hs01 : (if a ≤ t0 then 1 else 0) = 0 ∨ (if a ≤ t0 then 1 else 0) = 1 := by
           split_ifs <;> simp
-        have hcond : t0 < (a, b).2 ∧ (a, b).1 ≤ t1 := ⟨h0b, ha1⟩
+        have hcond : t0 < (a, b).2 ∧ (a, b).1 < t1 := ⟨h0b, ha1⟩
         rw [if_pos hcond, d0, d1, betweenCore_head a (b :: flat rest) _ _ t0 t1 hs01 hc]
         have hsorted : (b :: flat rest).Pairwise (· ≤ ·) := List.pairwise_cons.mpr ⟨hb, hrest⟩
         have hg := gEnd_eq_specEnd t1 rest (if (if a ≤ t0 then 1 else 0) = 0 then a else t0) b hsorted
@@ -274,20 +300,25 @@ theorem betweenIdx_eq_spec (ivs : List (F × F)) (t0 t1 : F) (h01 : t0 ≤ t1)
         rw [hg, specEnd_eq t0 t1 rest _ b hsorted h0b]
         congr 2
         by_cases h : a ≤ t0 <;> simp [h]
-      · -- the window ends before the head interval: nothing is on
-        have h1a : t1 < a := not_le.mp ha1
-        have hz1 : digitize (a :: b :: flat rest) t1 = 0 :=
-          digitize_zero_of_lt' _ _ (by
+      · -- the window ends before (or at the start of) the head interval: nothing is on
+        have h1a : t1 ≤ a := not_lt.mp ha1
+        have hz1 : digitizeR (a :: b :: flat rest) t1 = 0 :=
+          digitizeR_zero_of_le _ _ (by
             intro e he
             rcases List.mem_cons.mp he with rfl | he
             · exact h1a
-            · exact lt_of_lt_of_le h1a (ha e he))
-        have ha0 : ¬ a ≤ t0 := not_le.mpr (lt_of_le_of_lt h01 h1a)
-        have hcond : ¬ (t0 < (a, b).2 ∧ (a, b).1 ≤ t1) := fun h => ha1 h.2
+            · exact le_trans h1a (ha e he))
+        have ha0 : ¬ a ≤ t0 := not_le.mpr (lt_of_lt_of_le h01 h1a)
+        have hcond : ¬ (t0 < (a, b).2 ∧ (a, b).1 < t1) := fun h => ha1 h.2
         rw [if_neg hcond, d0, hz1, if_neg ha0]
-        rw [betweenSpec_nil_of_gt]
+        rw [betweenSpec_nil_of_ge]
         · simp [betweenCore, adjS, adjE]
         · intro q hq
-          exact lt_of_lt_of_le h1a (ha _ (List.mem_cons_of_mem _ (mem_flat_fst hq)))
+          exact le_trans h1a (ha _ (List.mem_cons_of_mem _ (mem_flat_fst hq)))
+
+/-- an empty (or reversed) window has no on-time: the early return -/
+theorem betweenIdx_empty_window (ivs : List (F × F)) (t0 t1 : F) (h : t1 ≤ t0) :
+    betweenIdx ivs t0 t1 = some [] := by
+  unfold betweenIdx; rw [if_pos h]
 
 end C14
